@@ -20,7 +20,7 @@ import (
 //
 //	chain <k> <GET|HEAD|POST> <onpanic> <onerror> <ct-hex|none> <nglobal> <nroute> [<wkind>]
 //	  wkind (optional, ignored by the model): which optional interfaces the recording writer has besides
-//	  http.Flusher — bit 1 io.ReaderFrom, bit 2 io.StringWriter (as the writers of a real net/http server have).
+//	  http.Flusher — bit 1 io.ReaderFrom, bit 2 io.StringWriter, bit 4 FlushError (as the writers of a real net/http server have).
 //	  The unchanged rux never calls them, so the log is the one of the plain recorder.
 //	status <site> <code> <via> | hdr <site> <k> <v> | write <site> <hex|nil> <acc> <err> <via> | flush <site>
 //	  | error <site> <code> <msg> <acc> <err> <via> | redirect <site> <code|d> <url> <body> <acc> <err>
@@ -145,7 +145,8 @@ type recCore interface {
 const (
 	recHasReaderFrom   = 1
 	recHasStringWriter = 2
-	recVariantMask     = recHasReaderFrom | recHasStringWriter
+	recHasFlushError   = 4 // FlushError() error, as the writers of net/http have since go1.20 (http.ResponseController uses it)
+	recVariantMask     = recHasReaderFrom | recHasStringWriter | recHasFlushError
 )
 
 type recRF struct{ recCore }
@@ -185,8 +186,32 @@ func recReadFrom(w io.Writer, src io.Reader) (n int64, err error) {
 	}
 }
 
+type recFE struct{ recCore }
+type recFERF struct{ recCore }
+type recFESW struct{ recCore }
+type recFERFSW struct{ recCore }
+
+func (w recFE) FlushError() error                         { w.recCore.Flush(); return nil }
+func (w recFERF) FlushError() error                       { w.recCore.Flush(); return nil }
+func (w recFESW) FlushError() error                       { w.recCore.Flush(); return nil }
+func (w recFERFSW) FlushError() error                     { w.recCore.Flush(); return nil }
+func (w recFERF) ReadFrom(src io.Reader) (int64, error)   { return recReadFrom(w.recCore, src) }
+func (w recFERFSW) ReadFrom(src io.Reader) (int64, error) { return recReadFrom(w.recCore, src) }
+func (w recFESW) WriteString(s string) (int, error)       { return w.recCore.Write([]byte(s)) }
+func (w recFERFSW) WriteString(s string) (int, error)     { return w.recCore.Write([]byte(s)) }
+
 func wrapRec(core recCore, variant int) http.ResponseWriter {
 	switch variant & recVariantMask {
+	case recHasFlushError:
+		return recFE{core}
+	case recHasFlushError | recHasReaderFrom:
+		return recFERF{core}
+	case recHasFlushError | recHasStringWriter:
+		return recFESW{core}
+	case recHasFlushError | recHasReaderFrom | recHasStringWriter:
+		return recFERFSW{core}
+	}
+	switch variant & (recHasReaderFrom | recHasStringWriter) {
 	case recHasReaderFrom:
 		return recRF{core}
 	case recHasStringWriter:
@@ -930,6 +955,7 @@ func (writerEngine) Corpus() []Case {
 		{Ops: []string{"chain 2 GET 0 1 none 0 1", "adderr 1", "status E 500 0", "write E 65 1 0 0", "end", "status E 500 0", "end"}, Tag: "corpus-onerror"},
 		// the underlying writer has io.ReaderFrom and io.StringWriter (as the one of a real server): io.WriteString, Write, flush
 		{Ops: []string{"chain 2 GET 0 0 none 0 1 3", "status 0 201 0", "write 1 6869 2 0 1", "flush 1", "write 2 21 1 0 0", "end"}, Tag: "corpus-wkind"},
+		{Ops: []string{"chain 2 GET 0 0 none 0 1 4", "status 0 201 0", "flush 1", "write 1 6869 2 0 1", "end"}, Tag: "corpus-wkind-flusherror"},
 		{Ops: []string{"chain 1 GET 0 0 none 0 0 2", "status 0 404 0", "write 0 68656c6c6f 2 1 1", "end"}, Tag: "corpus-wkind-sw"},
 		{Ops: []string{"chain 1 POST 0 0 none 0 0 1", "status 0 202 0", "wbytes 0 6162 2 0 1", "end", "status 0 204 0", "end"}, Tag: "corpus-wkind-rf"},
 		// the second entry point, Router.HandleContext: chains that write nothing (status only, abort, empty chain,
